@@ -6,7 +6,7 @@
 //!   c08 one    --case-json '{}' -> replay one search case
 use emmylua_code_analysis::{
     DbIndex, DiagnosticCode, DiagnosticIndex, EmmyLuaAnalysis, Emmyrc, EmmyrcWorkspaceModuleMap, FileId, LuaDeclId, LuaDeclTypeKind, LuaGlobalIndex, LuaIndex,
-    LuaMember, LuaMemberFeature, LuaMemberId, LuaMemberIndex, LuaMemberKey, LuaMemberOwner, LuaPropertyIndex, LuaSemanticDeclId, LuaType, LuaTypeDecl, LuaTypeDeclId, LuaTypeIndex, RenderLevel,
+    LuaMember, LuaMemberFeature, LuaMemberId, LuaMemberIndex, LuaMemberKey, LuaMemberOwner, LuaPropertyIndex, LuaReferenceIndex, LuaSemanticDeclId, LuaType, LuaTypeDecl, LuaTypeDeclId, LuaTypeIndex, RenderLevel,
     WorkspaceFolder, file_path_to_uri, humanize_type,
 };
 use emmylua_parser::{LuaAstNode, LuaCallExpr, LuaSyntaxId, LuaSyntaxKind, LuaTokenKind, VisibilityKind};
@@ -231,6 +231,44 @@ fn member_obs(idx: &LuaMemberIndex) -> Value {
     json!({"owners": owners, "cur": cur, "sizes": sizes_json(idx.verif_sizes())})
 }
 
+
+/// reference index. facts = list of [kind, name k, pos]: kind 0 = add_global_reference("R<k>"), else add_index_reference(Name "r<k>")
+fn sid_of(pos: u32) -> LuaSyntaxId {
+    LuaSyntaxId::new(LuaSyntaxKind::NameExpr.into(), TextRange::new(TextSize::from(pos), TextSize::from(pos + 1)))
+}
+
+fn ref_apply(idx: &mut LuaReferenceIndex, f: u32, facts: &Value) {
+    for fact in facts.as_array().cloned().unwrap_or_default() {
+        let k = fact[1].as_u64().unwrap_or(0);
+        let pos = fact[2].as_u64().unwrap_or(0) as u32;
+        if fact[0].as_u64().unwrap_or(0) == 0 {
+            idx.add_global_reference(&format!("R{k}"), FileId { id: f }, sid_of(pos));
+        } else {
+            idx.add_index_reference(LuaMemberKey::Name(format!("r{k}").into()), FileId { id: f }, sid_of(pos));
+        }
+    }
+}
+
+fn ref_obs(idx: &LuaReferenceIndex) -> Value {
+    let canon = |v: Option<Vec<emmylua_code_analysis::InFiled<LuaSyntaxId>>>| -> Value {
+        match v {
+            None => Value::Null,
+            Some(v) => {
+                let mut l: Vec<(u32, u32)> = v.iter().map(|r| (r.file_id.id, u32::from(r.value.get_range().start()))).collect();
+                l.sort();
+                json!(l)
+            }
+        }
+    };
+    let mut g = Vec::new();
+    let mut ix = Vec::new();
+    for k in 0..NOWNERS {
+        g.push(canon(idx.get_global_references(&format!("R{k}"))));
+        ix.push(canon(idx.get_index_references(&LuaMemberKey::Name(format!("r{k}").into()))));
+    }
+    json!({"global": g, "index": ix, "sizes": sizes_json(idx.verif_sizes())})
+}
+
 fn gen_facts(rng: &mut Rng, index: &str) -> Value {
     let n = rng.below(4);
     let mut v = Vec::new();
@@ -240,6 +278,7 @@ fn gen_facts(rng: &mut Rng, index: &str) -> Value {
             "global" => v.push(json!([rng.below(NOWNERS as usize), rng.below(6)])),
             "diagnostic" => v.push(json!([rng.below(2), rng.below(CODES.len())])),
             "member" => v.push(json!([rng.below(NOWNERS as usize), rng.below(3), rng.below(6)])),
+            "reference" => v.push(json!([rng.below(2), rng.below(NOWNERS as usize), rng.below(5)])),
             _ => match rng.below(6) {
                 0 => v.push(json!([0, rng.below(2)])),
                 1 => v.push(json!([1, rng.below(2)])),
@@ -258,6 +297,7 @@ fn fresh_obs(index: &str) -> Value {
         "global" => glob_obs(&LuaGlobalIndex::new()),
         "diagnostic" => diag_obs(&DiagnosticIndex::new()),
         "member" => member_obs(&LuaMemberIndex::new()),
+        "reference" => ref_obs(&LuaReferenceIndex::new()),
         _ => type_obs(&LuaTypeIndex::new()),
     }
 }
@@ -305,6 +345,7 @@ fn run_index_case(index: &str, ops: &[Value]) -> Value {
         "global" => drive!(LuaGlobalIndex::new(), glob_apply, glob_obs),
         "diagnostic" => drive!(DiagnosticIndex::new(), diag_apply, diag_obs),
         "member" => drive!(LuaMemberIndex::new(), member_apply, member_obs),
+        "reference" => drive!(LuaReferenceIndex::new(), ref_apply, ref_obs),
         _ => drive!(LuaTypeIndex::new(), type_apply, type_obs),
     }
     json!({"index": index, "steps": steps})
@@ -1287,12 +1328,13 @@ fn main() {
     let mut rng = Rng::new(seed ^ 0xC08);
     match args.cmd.as_str() {
         "corr" => {
-            for index in ["property", "global", "diagnostic", "type", "member"] {
+            for index in ["property", "global", "diagnostic", "type", "member", "reference"] {
                 // hand-written witnesses first
                 let w: Vec<Value> = match index {
                     "property" => vec![json!(["add", 1, [[0, 0, 1]]]), json!(["add", 2, [[0, 2, 0]]]), json!(["remove", 2]), json!(["add", 2, [[0, 2, 0]]]), json!(["clear"])],
                     "global" => vec![json!(["add", 1, [[0, 1], [1, 2]]]), json!(["add", 2, [[0, 3]]]), json!(["remove", 1]), json!(["remove", 2])],
                     "diagnostic" => vec![json!(["add", 1, [[0, 0], [1, 1]]]), json!(["remove", 1])],
+                    "reference" => vec![json!(["add", 1, [[0, 0, 1], [1, 0, 2]]]), json!(["add", 2, [[0, 0, 1], [0, 0, 3]]]), json!(["remove", 1]), json!(["remove", 2])],
                     "member" => vec![json!(["add", 1, [[0, 0, 1], [0, 0, 2]]]), json!(["add", 2, [[0, 0, 3]]]), json!(["remove", 1]), json!(["clear"])],
                     _ => vec![json!(["add", 1, [[2, 0, 1], [3, 0, 1], [0, 1]]]), json!(["add", 2, [[2, 0, 2], [3, 0, 2]]]), json!(["remove", 1]), json!(["remove", 2])],
                 };
@@ -1307,7 +1349,7 @@ fn main() {
             let mut out = Vec::new();
             let mut cases = 0usize;
             let mut per_sig: BTreeMap<String, usize> = BTreeMap::new();
-            for index in ["property", "global", "diagnostic", "type", "member"] {
+            for index in ["property", "global", "diagnostic", "type", "member", "reference"] {
                 let mut all: Vec<Vec<Value>> = vec![vec![json!(["add", 1, gen_facts(&mut Rng::new(7), index)]), json!(["add", 2, gen_facts(&mut Rng::new(8), index)]), json!(["clear"])]];
                 if index == "member" {
                     all.push(vec![json!(["add", 1, [[0, 0, 1]]]), json!(["clear"])]);
